@@ -73,7 +73,12 @@ impl Monitor for C12 {
                 continue;
             }
             let r = guard(|| {
-                let c = arrival::Curve::from_trace(trace.iter().map(|t| Offset::from(*t)), prefix_jobs);
+                // (every other prefix length: the trace arrives through an iterator without an exact size hint)
+                let c = if prefix_jobs % 2 == 0 {
+                    arrival::Curve::from_trace(trace.iter().filter(|_| true).map(|t| Offset::from(*t)), prefix_jobs)
+                } else {
+                    arrival::Curve::from_trace(trace.iter().map(|t| Offset::from(*t)), prefix_jobs)
+                };
                 table(&c, span + 1)
             });
             match r {
@@ -237,7 +242,13 @@ impl Monitor for C12 {
         let nmax = (fs[upto as usize] as usize).min(60);
         let items = guard(|| {
             let s = build_src();
-            arrival::delta_min_iter(&s).take(nmax + 1).map(|(n, x)| (n, u64::from(x))).collect::<Vec<_>>()
+            let full = arrival::delta_min_iter(&s).take(nmax + 1).map(|(n, x)| (n, u64::from(x))).collect::<Vec<_>>();
+            // the second public entry point reports the same pairs without the two trivial ones
+            let nz = arrival::nonzero_delta_min_iter(&s).take(nmax.saturating_sub(1)).map(|(n, x)| (n, u64::from(x))).collect::<Vec<_>>();
+            if full.len() >= 2 && nz[..] != full[2..] {
+                panic!("nonzero_delta_min_iter {:?} differs from delta_min_iter {:?}", nz, full);
+            }
+            full
         });
         match items {
             Err(c) => rep.violation(format!("C12 conv=delta_min_iter kind={} class={}", c.kind, c.class()), jobj! {"source"=>sj.clone(),"caught"=>c.to_json()}),
